@@ -131,6 +131,24 @@ fn undiscriminable(erased: &str) -> Option<&'static str> {
     None
 }
 
+/// Does the tree hold a `~` whose right operand is a (parenthesised) unary expression, a
+/// `not in` or an `is not` (the shapes of the fixed defect F-tilde)?
+fn tilde_before_unary(e: &Expr) -> bool {
+    match e {
+        Expr::Binary(op, l, r) => {
+            (*op == expr::BinOp::Concat
+                && matches!(**r, Expr::Unary(..) | Expr::Binary(expr::BinOp::NotIn, ..) | Expr::Test { negated: true, .. }))
+                || tilde_before_unary(l)
+                || tilde_before_unary(r)
+        }
+        Expr::Unary(_, x) => tilde_before_unary(x),
+        Expr::Test { expr, .. } | Expr::Filter { expr, .. } => tilde_before_unary(expr),
+        Expr::Ternary { cond, then, other } => tilde_before_unary(cond) || tilde_before_unary(then) || tilde_before_unary(other),
+        Expr::Index { base, .. } => tilde_before_unary(base),
+        _ => false,
+    }
+}
+
 /// Result of one slot multiset: for every pair of alternative groupings (identified up to the
 /// choice of filter / test name) whether some leaf assignment made the engine render them
 /// differently.
@@ -231,7 +249,7 @@ fn p_item(slots: &[Slot], thorough: bool, acc: &mut Acc, disc_out: &mut Discrimi
                 acc.violation(format!("panic:P:{combo}"), format!("engine panicked: {}", full.show()), || case("full", src_of(&names[i][4])));
             } else if is_syntax_error(&full) {
                 acc.violation(
-                    format!("syntax-error:P:{combo}"),
+                    if tilde_before_unary(t) { "tilde-rejects-parenthesised-unary".to_string() } else { format!("syntax-error:P:{combo}") },
                     format!("generated in-language program rejected: {}", full.show()),
                     || case("full", src_of(&names[i][4])),
                 );
@@ -308,6 +326,26 @@ fn p_item(slots: &[Slot], thorough: bool, acc: &mut Acc, disc_out: &mut Discrimi
         );
         let e = disc_out.entry(key).or_insert(false);
         *e = *e || *d;
+    }
+    // the minimal printer really is minimal and unambiguous: among the alternative groupings of a
+    // token sequence exactly one tree is printed without any parentheses (and never two)
+    let mut seen: Vec<&String> = vec![];
+    for i in 0..trees.len() {
+        if seen.contains(&&erased[i]) {
+            continue;
+        }
+        seen.push(&erased[i]);
+        let group: Vec<usize> = (0..trees.len()).filter(|j| erased[*j] == erased[i]).collect();
+        let free = group.iter().filter(|j| trees[**j].0.tokens(Parens::Minimal) == trees[**j].0.tokens(Parens::Erased)).count();
+        acc.count("P-token-sequences", 1);
+        if group.len() == 1 {
+            acc.count(if free == 1 { "P-single-tree-sequences-parenthesis-free" } else { "P-single-tree-sequences-parenthesised-by-table-or-engine-limit" }, 1);
+        } else if free == 1 {
+            acc.count("P-ambiguous-sequences-with-exactly-one-parenthesis-free-tree", 1);
+        } else {
+            acc.count("P-ambiguous-sequences-OTHER", 1);
+            acc.count(&format!("ambiguous token sequence with {free} parenthesis-free trees: {}", erased[i]), 1);
+        }
     }
     acc.count("P-trees", trees.len() as u64);
     acc.count("P-trees-with-alternative-grouping", alts.iter().filter(|a| !a.is_empty()).count() as u64);
@@ -418,6 +456,14 @@ fn main() {
         for sl in fam::p_expand(&classes, ms) {
             p_item(&sl, thorough, acc, &mut disc);
         }
+        if !disc.is_empty() {
+            acc.count("P-class-multisets-with-alternative-groupings", 1);
+            if disc.values().any(|d| *d) {
+                acc.count("P-class-multisets-with-a-discriminated-grouping", 1);
+            } else {
+                acc.count(&format!("no grouping discriminated: {}", ms.iter().map(|c| classes[*c].0.clone()).collect::<Vec<_>>().join(" + ")), 1);
+            }
+        }
         for ((erased, f1, f2), d) in &disc {
             acc.count("P-grouping-pairs", 1);
             if *d {
@@ -459,6 +505,21 @@ fn main() {
         let disc = run.counter("P-grouping-pairs-discriminated");
         let assoc = run.counter("P-grouping-pairs-unobservable");
         let undisc = run.counter("P-grouping-pairs-undiscriminated");
+        let (seqs, single_free, single_par, multi_one, multi_other) = (
+            run.counter("P-token-sequences"),
+            run.counter("P-single-tree-sequences-parenthesis-free"),
+            run.counter("P-single-tree-sequences-parenthesised-by-table-or-engine-limit"),
+            run.counter("P-ambiguous-sequences-with-exactly-one-parenthesis-free-tree"),
+            run.counter("P-ambiguous-sequences-OTHER"),
+        );
+        run.guard(
+            "P2-minimal-printer-is-minimal",
+            multi_other == 0 && multi_one > 200 && single_free + single_par + multi_one == seqs,
+            format!(
+                "{seqs} token sequences: {multi_one} admit several groupings and exactly one of them is printed without parentheses (the documented reading), {multi_other} admit several but not exactly one parenthesis-free tree; \
+                 {single_free} admit one tree printed without parentheses, {single_par} admit one tree that the table (`a == (not b)`, `(a is odd) + b`, `(a | f)[0]`) or a stated engine limit (`not (not a)`, `a ~ (-b)`) parenthesises"
+            ),
+        );
         run.guard(
             "P2-every-grouping-pair-discriminated",
             total > 300 && undisc == 0 && disc + assoc == total,
@@ -469,7 +530,13 @@ fn main() {
     // ------------------------------------------------------------------------------------- P3
     if thorough {
         let triples = fam::p_multisets(3);
-        let before = (run.counter("P-grouping-pairs"), run.counter("P-grouping-pairs-discriminated"), run.counter("P-grouping-pairs-unobservable"));
+        let before = (
+            run.counter("P-grouping-pairs"),
+            run.counter("P-grouping-pairs-discriminated"),
+            run.counter("P-grouping-pairs-unobservable"),
+            run.counter("P-class-multisets-with-alternative-groupings"),
+            run.counter("P-class-multisets-with-a-discriminated-grouping"),
+        );
         run.family(
             Family::new(
                 "P3",
@@ -484,10 +551,16 @@ fn main() {
             let total = run.counter("P-grouping-pairs") - before.0;
             let disc = run.counter("P-grouping-pairs-discriminated") - before.1;
             let assoc = run.counter("P-grouping-pairs-unobservable") - before.2;
+            let _ = assoc;
+            let with_alt = run.counter("P-class-multisets-with-alternative-groupings") - before.3;
+            let with_disc = run.counter("P-class-multisets-with-a-discriminated-grouping") - before.4;
             run.guard(
-                "P3-grouping-pairs-mostly-discriminated",
-                total > 10_000 && (disc + assoc) * 100 >= total * 90,
-                format!("{total} pairs of alternative groupings among operator triples: {disc} discriminated, {assoc} unobservable by construction"),
+                "P3-groupings-discriminated",
+                total > 10_000 && disc * 100 >= total * 60 && with_disc * 100 >= with_alt * 97,
+                format!(
+                    "{total} pairs of alternative groupings among operator triples, {disc} told apart by a leaf assignment (the rest regroup an associative or always-failing combination); \
+                     {with_alt} operator-class triples admit alternative groupings, {with_disc} of them have a discriminated pair (the others are listed as `no grouping discriminated:` counters of family P3)"
+                ),
             );
         }
     }
